@@ -770,8 +770,11 @@ func (t *Terminal) readLine() (line []string, err error) {
 		lineOk := false
 		for !lineOk {
 			var key rune
+			before := len(rest)
 			key, rest = bytesToKey(rest, t.pasteActive)
-			if key == utf8.RuneError {
+			if key == utf8.RuneError && before-len(rest) != utf8.RuneLen(utf8.RuneError) {
+				// incomplete or invalid input; a U+FFFD that was really typed
+				// (three bytes consumed) is a character like any other
 				break
 			}
 			if !t.pasteActive {
